@@ -295,3 +295,4 @@ def _r03_7(res, P, cfgname):
 
 LEVEL = LEVEL + ' Also (R03.6) the log2-estimate half test of round_fract is conservative (bound-polarity typing), (R03.7) no truncating signed `/ % >>` is applied to a possibly negative exponent, (R03.8) every half test compares a remainder with the divisor it came from.'
 TECHNIQUE = 'finite-domain tabulation of the rounding dispatch bodies against a definition oracle; dataflow rules (negation after rounding, Exact edges, own-context rounding); bound-polarity type system; half-test pairing by backward slices; signed-arithmetic inventory with non-negativity guards'
+LEVEL = LEVEL + ' (R03.4b) no Exact(..) is built from the .value() of a rounding step; (R15.5, shared) the sibling add kernels and the shl_digits twins agree.'
